@@ -570,7 +570,7 @@ func genStates(path string, quick bool, want map[string]bool, emit func(job)) {
 	for _, k := range keys {
 		s := best[k]
 		w, cl := plib.Bytes(s.W), plib.Bytes(s.Cl)
-		if !quick && len(s.Cl) > 1 {
+		if !quick && len(s.Cl) > 0 {
 			kAlpha = 2 // deep states: shorter continuations in the thorough tier
 		} else if !quick {
 			kAlpha = 3
@@ -691,7 +691,7 @@ func mutate(r *rand.Rand, b []byte, alpha []byte) []byte {
 func genMutations(r *rand.Rand, quick bool, want map[string]bool, emit func(job)) {
 	n := 150
 	if !quick {
-		n = 3000
+		n = 1500
 	}
 	g := &dgen{r: r}
 	for i := 0; i < n; i++ {
@@ -780,7 +780,7 @@ var jpSeeds = []string{
 func genJP(r *rand.Rand, quick bool, emit func(job)) {
 	L := 3
 	if !quick {
-		L = 5
+		L = 4
 	}
 	conts(alphaJP, L, func(c []byte) {
 		emit(job{b: c, cls: "jp-exhaustive", lang: "jp"})
